@@ -146,6 +146,20 @@ def worker():
     json.dump(res, open(sys.argv[2], "w"), default=str)
 
 
+def _report(chk, traces, reached, crashed, seeds):
+    nev = 0
+    for t, tr in enumerate(traces, start=1):
+        nev += len(tr)
+        if reached[t] != len(tr) + 1:
+            e = tr[max(reached[t], 1) - 1]
+            chk.violation({"kind": "trace_rejected" if t not in crashed else "trace_state_unreadable", "action": e["op"], "accepted_by_code": bool(e["ok"]),
+                           "view_kind": (e.get("ev") or {}).get("kind")},
+                          {"trace_seed": seeds[t - 1], "event_index": reached[t], "event": {k_: v_ for k_, v_ in e.items() if k_ != "after"},
+                           "history": [{k_: v_ for k_, v_ in x.items() if k_ != "after"} for x in tr[:reached[t]]],
+                           "logged_after": e["after"], "logged_before": tr[reached[t] - 2]["after"] if reached[t] >= 2 else None})
+    return nev
+
+
 def trace_validation(chk, model, quick, sd):
     """Code -> spec: random wiring / editing histories recorded from the real network, validated by TLC against Trace_Net.tla."""
     import re
@@ -155,37 +169,23 @@ def trace_validation(chk, model, quick, sd):
             for i, ch in enumerate(C.chunks(seeds, C.NCPU))]
     outs = C.run_workers("trace_net", jobs, timeout=3000)
     traces = [t for o in outs for t in o["traces"]]
-    tf = os.path.join(C.WORK, "traces_net.json")
-    json.dump(traces, open(tf, "w"))
     cfg = os.path.join(C.SPEC, "Trace_Net.cfg")
-    res = C.run_tlc("Trace_Net", cfg, "trace_net", workers=C.NCPU, timeout=2400, env={"TRACE_FILE": tf})
-    if not res.ok:
-        raise C.MachineryError("trace validation failed to run:\n" + res.out[-2000:])
-    reached = Counter()
-    for line in res.printed("AT"):
-        m = re.match(r'<<"AT", (\d+), (\d+)>>', line)
-        reached[int(m.group(1))] = max(reached[int(m.group(1))], int(m.group(2)))
+    reached, crashed = C.validate_traces("Trace_Net", cfg, traces, "trace_net")
     # binding demonstration: one corrupted field of one trace must be rejected at exactly that event
-    bad = json.loads(json.dumps(traces[:1]))
+    # (on a trace the specification accepts as it is; with none accepted there is nothing to demonstrate on)
+    accepted = [t for t, tr in enumerate(traces, start=1) if reached[t] == len(tr) + 1 and any(e["ok"] == 1 and e["after"]["w"] for e in tr)]
+    if not accepted:
+        return len(traces), _report(chk, traces, reached, crashed, seeds)
+    bad = json.loads(json.dumps([traces[accepted[0] - 1]]))
     k = next(i for i, e in enumerate(bad[0]) if e["ok"] == 1 and e["after"]["w"])
     bad[0][k]["after"]["w"][0] += 1
     tf2 = os.path.join(C.WORK, "traces_net_corrupt.json")
     json.dump(bad, open(tf2, "w"))
-    res2 = C.run_tlc("Trace_Net", cfg, "trace_net2", workers=2, timeout=600, env={"TRACE_FILE": tf2})
+    res2 = C.run_tlc("Trace_Net", cfg, "trace_net2", workers=2, timeout=600, env={"TRACE_FILE": tf2}, tolerate_eval_errors=True)
     got = max([int(re.match(r'<<"AT", (\d+), (\d+)>>', l).group(2)) for l in res2.printed("AT")] + [0])
     if got != k + 1:
         raise C.MachineryError("a corrupted trace was matched up to event %d, expected rejection at event %d" % (got, k + 1))
-    nev = 0
-    for t, tr in enumerate(traces, start=1):
-        nev += len(tr)
-        if reached[t] != len(tr) + 1:
-            e = tr[reached[t] - 1]
-            chk.violation({"kind": "trace_rejected", "action": e["op"], "accepted_by_code": bool(e["ok"]),
-                           "view_kind": (e.get("ev") or {}).get("kind")},
-                          {"trace_seed": seeds[t - 1], "event_index": reached[t], "event": {k_: v_ for k_, v_ in e.items() if k_ != "after"},
-                           "history": [{k_: v_ for k_, v_ in x.items() if k_ != "after"} for x in tr[:reached[t]]],
-                           "logged_after": e["after"], "logged_before": tr[reached[t] - 2]["after"] if reached[t] >= 2 else None})
-    return len(traces), nev
+    return len(traces), _report(chk, traces, reached, crashed, seeds)
 
 
 def main(which):
